@@ -1,6 +1,8 @@
 """C03 - taste accepts every well-formed plotfile under every option combination."""
 import itertools
 
+import numpy as np
+
 from hypothesis import strategies as st
 
 from .. import plotgen
@@ -52,7 +54,7 @@ def check_case(case, ctx):
     ctx.nontrivial(plot.nlev >= 2 or "scattered" in labs or "non-monotone" in labs)
     only = case.get("only_opts")
     v = []
-    for o in OPTS:
+    for oi, o in enumerate(OPTS):
         if only is not None and list(o) != list(only):
             continue
         if f3_region(o) and ctx.is_open("F3"):
@@ -63,13 +65,15 @@ def check_case(case, ctx):
             for nofail in (False, True):
                 ctx.counters["constructions"] += 1
                 try:
-                    ok = qcall(lambda: bool(Taster(src, limit_level=limit, nofail=nofail, **kw)))
+                    # (a limit computed with numpy arrives as a numpy integer)
+                    lim_arg = limit if limit is None or (oi + limit) % 3 else [np.int64, np.int32, np.uint8][(oi + limit) % 9 // 3](limit)
+                    ok = qcall(lambda: bool(Taster(src, limit_level=lim_arg, nofail=nofail, **kw)))
                 except Exception as e:
-                    v.append(f"options headers={o[0]} shape={o[1]} data={o[2]} coords={o[3]} limit={limit} "
+                    v.append(f"options headers={o[0]} shape={o[1]} data={o[2]} coords={o[3]} limit={lim_arg!r} "
                              f"nofail={nofail}: raised {type(e).__name__}: {str(e)[:200]}")
                     break
                 if not ok:
-                    v.append(f"options headers={o[0]} shape={o[1]} data={o[2]} coords={o[3]} limit={limit} "
+                    v.append(f"options headers={o[0]} shape={o[1]} data={o[2]} coords={o[3]} limit={lim_arg!r} "
                              f"nofail={nofail}: a well-formed plotfile is reported bad")
                     break
             else:
